@@ -529,6 +529,7 @@ _c = contract(RK + 'verify', name='RSAKey.verify[pkcs1-short-modulus]', params=_
               requires=lambda ns: S.And(kN(ns) > 0, kK(ns) >= 1, kK(ns) < _tlen(ns) + 11),
               result=T.bool(), raises={},
               ensures=lambda ns: S.Not(ns.result),
+              opts={'rlimit_scale': 0.02},       # known finding F30: expected not to prove; give up after a small resource budget
               prop='C10',
               doc='RFC 8017 8.2.2 step 3 / 9.2 step 3: when k < |T| + 11 ("intended encoded message length too short") '
                   'no signature is valid')
@@ -775,42 +776,36 @@ def _modbits(ns):
     return MC.bitlen(kN(ns))
 
 
-def _pssv_spec(ns, em_len_is_k=True):
-    """RFC 8017 8.1.2 on (n, e): length / range of S, EM = I2OSP(m, emLen), EMSA-PSS-VERIFY(mHash, EM, modBits - 1).
-    em_len_is_k: the caller's precondition contains emLen == k (modBits != 1 mod 8); the length of EM is then
-    written as k, which is the same number."""
+def _pssv_spec(ns):
+    """RFC 8017 8.1.2 on (n, e): length / range of S, m = S^e mod n, EM = I2OSP(m, emLen) with
+    emLen = ceil((modBits-1)/8) ("integer too large" => invalid), EMSA-PSS-VERIFY(mHash, EM, modBits - 1)."""
     emBits = _modbits(ns) - 1
     emLen = ceil8(emBits)
     m = VInt(RsaPub(MC.b2i(ns.S).t, kE(ns).t, kN(ns).t))
-    EM = MC.i2b(m, kK(ns) if em_len_is_k else emLen)
+    EM = MC.i2b(m, emLen)
     return S.And(S.Not(pub_invalid(ns, ns.S)), m < S.pow256(emLen),
                  PssSpec(ns.mHash, EM, emBits, _hs(ns), ns.sLen).consistent())
 
 
-def _pssv_contracts(tag, extra_req, doc):
-    cs = per_hash(RK + 'RSASSA_PSS_verify', 'RSAKey.RSASSA_PSS_verify' + tag,
-                  lambda h: {'self': rsa_key(), 'mHash': T.bytes(), 'S': T.bytes(), 'hAlg': T.const(h), 'sLen': T.int()},
-                  ('sha256',) if tag else PSS_HASHES,
-                  requires=lambda ns: S.And(kN(ns) > 1, _modbits(ns) <= EMBITS_MAX, ns.sLen >= 0, extra_req(ns)),
-                  result=T.bool(),
-                  raises={InvalidSignature: lambda ns: S.Not(_pssv_spec(ns, not tag))},
-                  ensures=lambda ns: S.And(ns.result, _pssv_spec(ns.old, not tag)),
-                  cover=not tag, opts={'budget_factor': 1 if tag else 4}, prop='C10', doc=doc)
-    return cs
+def _pss_key_req(ns):
+    """any modulus of at least 2 bits; the last conjunct is an arithmetic consequence (emLen is k or k-1),
+    stated to seed the solver's case split"""
+    emLen, k = ceil8(_modbits(ns) - 1), kK(ns)
+    return S.And(kN(ns) > 1, _modbits(ns) <= EMBITS_MAX, ns.sLen >= 0,
+                 S.Or(S.And((_modbits(ns) - 1) % 8 != 0, emLen == k), S.And((_modbits(ns) - 1) % 8 == 0, emLen == k - 1)))
 
 
-def _not_1_mod_8(ns):
-    # the second conjunct is an arithmetic consequence of the first (emLen == k); stated to seed the solver
-    return S.And((_modbits(ns) - 1) % 8 != 0, ceil8(_modbits(ns) - 1) == kK(ns))
-
-
-_pssv_contracts('', _not_1_mod_8,
-                'RFC 8017 8.1.2 for modulus bit lengths not congruent 1 mod 8: True exactly when len(S)==k, int(S)<n and '
-                'EM = I2OSP(S^e mod n, emLen) passes EMSA-PSS-VERIFY with emBits = modBits-1; otherwise InvalidSignature')
-for _c in _pssv_contracts('<modBits=1 mod 8>', lambda ns: (_modbits(ns) - 1) % 8 == 0,
-                          'same statement for modBits = 1 mod 8 (emLen = k - 1): EXPECTED TO FAIL on the pinned tree '
-                          '(EM is taken as k bytes, all offsets shift by one)'):
-    _c.variant = 'modbits-1-mod-8'
+per_hash(RK + 'RSASSA_PSS_verify', 'RSAKey.RSASSA_PSS_verify',
+         lambda h: {'self': rsa_key(), 'mHash': T.bytes(), 'S': T.bytes(), 'hAlg': T.const(h), 'sLen': T.int()},
+         PSS_HASHES,
+         requires=_pss_key_req,
+         result=T.bool(),
+         raises={InvalidSignature: lambda ns: S.Not(_pssv_spec(ns))},
+         ensures=lambda ns: S.And(ns.result, _pssv_spec(ns.old)),
+         prop='C10',
+         doc='RFC 8017 8.1.2 for every modulus bit length: True exactly when len(S)==k, int(S)<n, m = S^e mod n fits in '
+             'emLen = ceil((modBits-1)/8) octets and EM = I2OSP(m, emLen) passes EMSA-PSS-VERIFY with emBits = modBits-1; '
+             'otherwise InvalidSignature')
 
 
 def _pss_sign_ensures(ns):
@@ -861,25 +856,16 @@ def _reachable(st, what):
         raise RuntimeError('vacuous scenario: state unreachable at ' + what)
 
 
-def _pss_sign_contracts(tag, extra_req, doc):
-    return per_hash(RK + 'RSASSA_PSS_sign', 'RSAKey.RSASSA_PSS_sign' + tag,
-                    lambda h: {'self': rsa_key(), 'mHash': T.bytes(), 'hAlg': T.const(h), 'sLen': T.int()},
-                    ('sha256',) if tag else PSS_HASHES,
-                    requires=lambda ns: S.And(kN(ns) > 1, _modbits(ns) <= EMBITS_MAX, ns.sLen >= 0, extra_req(ns)),
-                    result=T.bytes(),
-                    raises={EncodingError: ('iff', lambda ns: ceil8(_modbits(ns) - 1) < MC.HASH_SIZES[_hs(ns)] + ns.sLen + 2),
-                            MessageTooLongError: lambda ns: VBool(z3.BoolVal(False))},
-                    ensures=_pss_sign_ensures, apply_fn=_sign_apply, cover=not tag, prop='C10', doc=doc)
-
-
-_pss_sign_contracts('', _not_1_mod_8,
-                    'RFC 8017 8.1.1 for modulus bit lengths not congruent 1 mod 8: the only failure is "encoding error" '
-                    '(emLen < hLen+sLen+2); otherwise S = I2OSP(RSASP1(OS2IP(EMSA-PSS-ENCODE(mHash, modBits-1))), k); '
-                    'MessageTooLongError never')
-for _c in _pss_sign_contracts('<modBits=1 mod 8>', lambda ns: (_modbits(ns) - 1) % 8 == 0,
-                              'same statement for modBits = 1 mod 8: EXPECTED TO FAIL on the pinned tree (EM has k-1 bytes, the '
-                              'raw operation demands k: MessageTooLongError)'):
-    _c.variant = 'modbits-1-mod-8'
+per_hash(RK + 'RSASSA_PSS_sign', 'RSAKey.RSASSA_PSS_sign',
+         lambda h: {'self': rsa_key(), 'mHash': T.bytes(), 'hAlg': T.const(h), 'sLen': T.int()},
+         PSS_HASHES,
+         requires=_pss_key_req,
+         result=T.bytes(),
+         raises={EncodingError: ('iff', lambda ns: ceil8(_modbits(ns) - 1) < MC.HASH_SIZES[_hs(ns)] + ns.sLen + 2),
+                 MessageTooLongError: lambda ns: VBool(z3.BoolVal(False))},
+         ensures=_pss_sign_ensures, apply_fn=_sign_apply, prop='C10',
+         doc='RFC 8017 8.1.1 for every modulus bit length: the only failure is "encoding error" (emLen < hLen+sLen+2); '
+             'otherwise S = I2OSP(RSASP1(OS2IP(EMSA-PSS-ENCODE(mHash, modBits-1))), k); MessageTooLongError never')
 
 
 # --- verify(padding='pss') / sign() front ends -------------------------------------------------
@@ -896,11 +882,11 @@ def _vp_spec(ns):
 
 for _h in PSS_HASHES:
     _c = contract(RK + 'verify', name='RSAKey.verify[pss-%s]' % _h, params=_verify_pss_params(_h),
-                  requires=lambda ns: S.And(kN(ns) > 1, _modbits(ns) <= EMBITS_MAX, ns.saltLen >= 0, _not_1_mod_8(ns)),
+                  requires=lambda ns: S.And(kN(ns) > 1, _modbits(ns) <= EMBITS_MAX, ns.saltLen >= 0),
                   result=T.bool(), raises={},
                   ensures=lambda ns: S.iff(ns.result, _vp_spec(ns.old)),
-                  opts={'budget_factor': 4}, prop='C10',
-                  doc='verify(pss) is True exactly when RFC 8017 8.1.2 accepts (modBits != 1 mod 8); never raises')
+                  prop='C10',
+                  doc='verify(pss) is True exactly when RFC 8017 8.1.2 accepts (every modulus bit length); never raises')
     _c.variant = 'pss-' + _h
 
 
@@ -962,8 +948,8 @@ REG.note('C11', 'not_built', 'ClientKeyExchange.parse (RSA branch) framing-only 
                              'processClientKeyExchange and _getFinished (syntactic data-flow obligation); constant-time behaviour is not claimed')
 REG.note('C10', 'assumptions', 'PKCS#1 v1.5 exactness is proved for k >= |T| + 11 (RFC 8017 9.2 step 3); the complementary case is the separate '
                                'obligation verify[pkcs1-short-modulus] (fails on the pinned tree: class pkcs1-short-ps-accepted)')
-REG.note('C10', 'assumptions', 'PSS: emBits <= 2^24 (MGF1 "mask too long" unreachable), sLen >= 0; RSASSA-PSS contracts are split by '
-                               'modBits mod 8: != 1 proved, == 1 expected to fail on the pinned tree (class pss-modbits-1-mod-8)')
+REG.note('C10', 'assumptions', 'PSS: emBits <= 2^24 (MGF1 "mask too long" unreachable), sLen >= 0; RSASSA-PSS contracts hold for every '
+                               'modulus bit length (F6, modBits = 1 mod 8, fixed in /repo e55c238)')
 REG.note('C10', 'trusted', 'xor lemmas (x^y)^y == x and ((x^y) mod 2^t ^ y) mod 2^t == x mod 2^t on [0, 2^32): each proved in 34-bit '
                            'bit-vector arithmetic when contracts.rsa is imported')
 REG.note('C10', 'not_built', 'PSS round-trip lemmas are instantiated for SHA-256 only (the contract texts are hash-generic; other hashes are '
@@ -1044,60 +1030,56 @@ def _valid_key_axiom():
 smt.AXIOMS.extend(_valid_key_axiom())     # definition of the assumption "valid key": public op inverts private op
 
 
-def _pss_sign_verify(zbits):
-    def body(api):
-        st = api.st
-        key = api.make('key', rsa_key())
-        mHash = api.make('mHash', T.bytes())
-        sLen = api.make('sLen', T.int(0, None))
-        h = VStr('sha256')
-        ns0 = api.ns(st)
-        n, e, d = ns0.f(key, 'n'), ns0.f(key, 'e'), ns0.f(key, 'd')
-        modBits = MC.bitlen(n)
-        emBits = modBits - 1
-        emLen = ceil8(emBits)
-        k = MC.numbytes(n)
-        st.assume(truthy(S.And(n > 1, modBits <= EMBITS_MAX, (modBits - 1) % 8 != 0, emLen == k,
-                               8 * emLen - emBits == zbits, VBool(ValidKey(n.t, e.t, d.t)))))
-        _reachable(st, 'hypotheses')
+@scenario('pss-sign-then-verify[sha256]', ('C10',),
+          doc='O-pss-roundtrip: RSASSA_PSS_verify(RSASSA_PSS_sign(mHash)) is True for every modulus bit length (including 1 mod 8) '
+              'and every salt length with emLen >= hLen+sLen+2; assumes RsaPub(RsaPriv(m)) == m; uses the conclusion of the '
+              'lemma tasks pss-encode-then-verify[sha256,0..7-spare-bits] (every encoding is consistent)')
+def _pss_sign_verify(api):
+    st = api.st
+    key = api.make('key', rsa_key())
+    mHash = api.make('mHash', T.bytes())
+    sLen = api.make('sLen', T.int(0, None))
+    h = VStr('sha256')
+    ns0 = api.ns(st)
+    n, e, d = ns0.f(key, 'n'), ns0.f(key, 'e'), ns0.f(key, 'd')
+    modBits = MC.bitlen(n)
+    emBits = modBits - 1
+    emLen = ceil8(emBits)
+    st.assume(truthy(S.And(n > 1, modBits <= EMBITS_MAX, VBool(ValidKey(n.t, e.t, d.t)))))
+    _reachable(st, 'hypotheses')
 
-        def cut(s, name, f):
-            """prove f in state s, then use it (cut rule)"""
-            api.oblige(s, name, f)
-            s.assume(truthy(_lift(f)))
-        for o in api.call(RK + 'RSASSA_PSS_sign', [key, mHash, h, sLen], st, inline=False):
-            if o.kind != 'normal':
-                if o.val.cls is EncodingError:
-                    continue                      # emLen < hLen + sLen + 2: nothing to verify
-                api.unreachable(o.st, 'sign-raises-only-encoding-error(%s)' % o.val.cls.__name__)
-                continue
-            s1, sig = o.st, o.val
-            salt = [ev for ev in s1.events if ev[0] == 'rng'][-1][2]
-            EM = pss_encoding(mHash, emBits, 'sha256', salt)
-            m = MC.b2i(EM)
-            sig_int = VInt(RsaPriv(n.t, d.t, m.t))
-            _reachable(s1, 'sign returns')
-            cut(s1, 'rt1: len(EM) == emLen', S.len_(EM) == emLen)
-            cut(s1, 'rt2: OS2IP(S) is the signature representative', MC.b2i(sig) == sig_int)
-            cut(s1, 'rt3: RSAVP1(RSASP1(m)) == m', VInt(RsaPub(MC.b2i(sig).t, e.t, n.t)) == m)
-            cut(s1, 'rt4: I2OSP(m, emLen) == EM', MC.i2b(m, emLen) == EM)
-            sp = PssSpec(mHash, EM, emBits, 'sha256', sLen)
-            for name, cond in sp.steps():
-                cut(s1, 'rt5 step ' + name, cond)
-            for o2 in api.call(RK + 'RSASSA_PSS_verify', [key, mHash, sig, h, sLen], s1, inline=False):
-                if o2.kind != 'normal':
-                    api.unreachable(o2.st, 'own-signature-verifies(%s)' % o2.val.cls.__name__)
-                else:
-                    _reachable(o2.st, 'verify returns')
-                    api.oblige(o2.st, 'verify-returns-True', o2.val)
-    return body
+    def cut(s, name, f):
+        """prove f in state s, then use it (cut rule)"""
+        api.oblige(s, name, f)
+        s.assume(truthy(_lift(f)))
+    for o in api.call(RK + 'RSASSA_PSS_sign', [key, mHash, h, sLen], st, inline=False):
+        if o.kind != 'normal':
+            if o.val.cls is EncodingError:
+                continue                      # emLen < hLen + sLen + 2: nothing to verify
+            api.unreachable(o.st, 'sign-raises-only-encoding-error(%s)' % o.val.cls.__name__)
+            continue
+        s1, sig = o.st, o.val
+        salt = [ev for ev in s1.events if ev[0] == 'rng'][-1][2]
+        EM = pss_encoding(mHash, emBits, 'sha256', salt)
+        m = MC.b2i(EM)
+        sig_int = VInt(RsaPriv(n.t, d.t, m.t))
+        _reachable(s1, 'sign returns')
+        cut(s1, 'rt1: len(EM) == emLen', S.len_(EM) == emLen)
+        cut(s1, 'rt2: OS2IP(S) is the signature representative', MC.b2i(sig) == sig_int)
+        cut(s1, 'rt3: RSAVP1(RSASP1(m)) == m', VInt(RsaPub(MC.b2i(sig).t, e.t, n.t)) == m)
+        cut(s1, 'rt4: m < 256^emLen and I2OSP(m, emLen) == EM', S.And(m < S.pow256(emLen), MC.i2b(m, emLen) == EM))
+        # lemma pss-encode-then-verify[sha256, 0..7 spare bits] (proved as separate tasks for all eight values
+        # of 8emLen - emBits): every EMSA-PSS encoding with emLen >= hLen + sLen + 2 is consistent
+        s1.assume(truthy(PssSpec(mHash, EM, emBits, 'sha256', sLen).consistent()))
+        _reachable(s1, 'lemma applied')
+        for o2 in api.call(RK + 'RSASSA_PSS_verify', [key, mHash, sig, h, sLen], s1, inline=False):
+            if o2.kind != 'normal':
+                api.unreachable(o2.st, 'own-signature-verifies(%s)' % o2.val.cls.__name__)
+            else:
+                _reachable(o2.st, 'verify returns')
+                api.oblige(o2.st, 'verify-returns-True', o2.val)
 
 
-for _z in range(1, 8):         # 8emLen - emBits == 0 is the excluded case modBits = 1 mod 8
-    scenario('pss-sign-then-verify[sha256,%d-spare-bits]' % _z, ('C10',),
-             doc='O-pss-roundtrip: RSASSA_PSS_verify(RSASSA_PSS_sign(mHash)) is True for every modulus bit length != 1 mod 8 '
-                 '(8emLen-emBits = %d), every salt length with emLen >= hLen+sLen+2; assumes RsaPub(RsaPriv(m)) == m' % _z,
-             opts={'budget_factor': 4})(_pss_sign_verify(_z))
 REG.note('C10', 'assumptions', 'round-trip lemmas assume a valid key pair: RsaPub(RsaPriv(n, d, m), e, n) == m for 0 <= m < n')
 
 
